@@ -702,6 +702,13 @@ func (w *Worker) doTaskAttempt(
 		case RecordFlagNack:
 			err := acker.Nack(ctx, subBatch, t.ID())
 			if err != nil {
+				if _, ok := t.(*ProcessorTask); ok {
+					// A processor error that the DLQ did not absorb is
+					// deterministic: a restart re-reads the same record and
+					// fails on it again, so recovering would loop forever. Same
+					// classification as the default engine (stream.ProcessorNode).
+					return cerrors.FatalError(err)
+				}
 				return err
 			}
 		case RecordFlagRetry:
